@@ -1,23 +1,25 @@
 import BlugeProofs.C01.History
+import BlugeProofs.C01.MergeAbs
 /-! Every reachable state satisfies the history invariants and refines the abstract index
-(batches and persists here; the merge case is stated separately). -/
+(batches, persists and merges). -/
 namespace Bluge.Index
 open List
 
 theorem introSegStep_sid (obs : Obs) (ids : List Id) (ss : SegSnap) : (introSegStep obs ids ss).sid = ss.sid := rfl
 
-theorem introduceSegment_derived {r : Root} (epoch : Nat) (b : Batch) (n : Nat) :
-    Derived r (introduceSegment r epoch b (n + 1) []) n (n + 1) (n + 1) b.docs := by
+theorem introduceSegment_derived (hist : List Root) {r : Root} (epoch : Nat) (b : Batch) {sid : Nat}
+    (hf : ∀ x ∈ hist, ∀ s ∈ x.segs, s.sid ≠ sid) :
+    Derived hist r (introduceSegment r epoch b sid []) sid b.docs := by
   intro ss hss
   rcases mem_introduceSegment hss with ⟨s0, hs0, rfl, _⟩ | ⟨rfl, _⟩
   · left
     exact ⟨s0, hs0, rfl, rfl, fun x hx => mem_stepDeleted.mpr (Or.inl hx)⟩
   · right
-    exact ⟨rfl, rfl, Nat.lt_succ_self n, Nat.le_refl _⟩
+    exact ⟨rfl, rfl, hf⟩
 
-theorem introduceSegment_sids_nodup {r : Root} (epoch : Nat) (b : Batch) {n : Nat}
-    (hnd : r.sids.Nodup) (hb : ∀ ss ∈ r.segs, ss.sid ≤ n) :
-    (introduceSegment r epoch b (n + 1) []).sids.Nodup := by
+theorem introduceSegment_sids_nodup {r : Root} (epoch : Nat) (b : Batch) {sid : Nat}
+    (hnd : r.sids.Nodup) (hb : ∀ ss ∈ r.segs, ss.sid ≠ sid) :
+    (introduceSegment r epoch b sid []).sids.Nodup := by
   unfold introduceSegment Root.sids
   simp only [List.map_append]
   rw [List.nodup_append]
@@ -37,8 +39,8 @@ theorem introduceSegment_sids_nodup {r : Root} (epoch : Nat) (b : Batch) {n : Na
     · simp at hc
     · simp at hc; omega
 
-theorem introducePersist_derived {r : Root} (epoch : Nat) {p : Persisted} (h : PersistWF r p) (n f : Nat) (nd : List Doc) :
-    Derived r (introducePersist r epoch p) n n f nd := by
+theorem introducePersist_derived (hist : List Root) {r : Root} (epoch : Nat) {p : Persisted} (h : PersistWF r p)
+    (f : Nat) (nd : List Doc) : Derived hist r (introducePersist r epoch p) f nd := by
   intro ss hss
   left
   have hm : (ss.sid, ss.docs, ss.deleted) ∈ (introducePersist r epoch p).segs.map (fun ss => (ss.sid, ss.docs, ss.deleted)) :=
@@ -68,7 +70,7 @@ theorem introducePersist_sids {r : Root} (epoch : Nat) {p : Persisted} (h : Pers
 
 /-- the invariant of reachable states -/
 structure Inv (s : State) : Prop where
-  hist : HistInv s.history s.nextSid
+  hist : HistInv s.history
   /-- refinement: the live documents are the abstract index of the batches applied so far -/
   abs : s.root.abs.Perm (absOf s.applied)
 
@@ -86,18 +88,28 @@ theorem absOf_append (bs : List Batch) (b : Batch) : absOf (bs ++ [b]) = applyBa
 theorem applyBatch_perm {A B : List Doc} (h : A.Perm B) (b : Batch) : (applyBatch A b).Perm (applyBatch B b) :=
   List.Perm.append_right _ (h.filter _)
 
-/-- the batch event: whatever root `prepareSegment` saw -/
-theorem Inv.step_batch {s : State} (hs : Inv s) (b : Batch) (k : Nat) : Inv (step s (.batch b k)) := by
+theorem not_mem_usedSids {s : State} {sid : Nat} (h : sid ∉ s.usedSids) :
+    ∀ x ∈ s.history, ∀ ss ∈ x.segs, ss.sid ≠ sid := by
+  intro x hx ss hss heq
+  apply h
+  unfold State.usedSids
+  rw [List.mem_flatMap]
+  exact ⟨x, hx, List.mem_map.mpr ⟨ss, hss, heq⟩⟩
+
+/-- the batch event: whatever root `prepareSegment` saw, whatever fresh segment id it took -/
+theorem Inv.step_batch {s : State} (hs : Inv s) (b : Batch) (k : Nat) {sid : Nat} (hsid : sid ∉ s.usedSids) :
+    Inv (step s (.batch b k sid)) := by
   have hroot : s.root ∈ s.history := List.mem_cons_self
   have hok : ObsOK s.root b.ids (prepareObs (s.seen k) b.ids) :=
     prepareObs_ok b.ids (hs.hist.cons _ (s.seen_mem k) _ hroot)
   have hwf := hs.hist.wf _ hroot
+  have hf := not_mem_usedSids hsid
   constructor
-  · show HistInv (introduceSegment s.root s.nextEpoch b (s.nextSid + 1) _ :: s.root :: s.past) (s.nextSid + 1)
+  · show HistInv (introduceSegment s.root s.nextEpoch b sid _ :: s.root :: s.past)
     rw [introduceSegment_obs_irrelevant hok]
-    exact hs.hist.push (Nat.le_succ _) (introduceSegment_derived _ b _) (introduceSegment_wf _ b _ hwf)
-      (introduceSegment_sids_nodup _ b (hs.hist.nodup _ hroot) (hs.hist.bound _ hroot))
-  · show (introduceSegment s.root s.nextEpoch b (s.nextSid + 1) _).abs.Perm (absOf (s.applied ++ [b]))
+    exact hs.hist.push (introduceSegment_derived _ _ b hf) (introduceSegment_wf _ b _ hwf)
+      (introduceSegment_sids_nodup _ b (hs.hist.nodup _ hroot) (hf _ hroot))
+  · show (introduceSegment s.root s.nextEpoch b sid _).abs.Perm (absOf (s.applied ++ [b]))
     rw [introduceSegment_obs_irrelevant hok, introduceSegment_nil_abs _ b _ hwf, absOf_append]
     exact applyBatch_perm hs.abs b
 
@@ -105,16 +117,120 @@ theorem Inv.step_persist {s : State} (hs : Inv s) {p : Persisted} (hp : PersistW
     Inv (step s (.persist p)) := by
   have hroot : s.root ∈ s.history := List.mem_cons_self
   constructor
-  · show HistInv (introducePersist s.root s.nextEpoch p :: s.root :: s.past) s.nextSid
-    exact hs.hist.push (Nat.le_refl _) (introducePersist_derived _ hp _ 0 []) (introducePersist_wf _ hp (hs.hist.wf _ hroot))
+  · show HistInv (introducePersist s.root s.nextEpoch p :: s.root :: s.past)
+    exact hs.hist.push (introducePersist_derived _ _ hp 0 []) (introducePersist_wf _ hp (hs.hist.wf _ hroot))
       (by rw [introducePersist_sids _ hp]; exact hs.hist.nodup _ hroot)
   · show (introducePersist s.root s.nextEpoch p).abs.Perm (absOf s.applied)
     rw [introducePersist_abs_eq _ hp]; exact hs.abs
 
 theorem batchesOf_append (evs : List Event) (e : Event) :
-    batchesOf (evs ++ [e]) = batchesOf evs ++ (match e with | .batch b _ => [b] | _ => []) := by
+    batchesOf (evs ++ [e]) = batchesOf evs ++ (match e with | .batch b _ _ => [b] | _ => []) := by
   induction evs with
   | nil => cases e <;> rfl
   | cons a t ih => cases a <;> simp [batchesOf, ih]
+
+/-- deleted sets only grow from any root of the history to the current one -/
+theorem HistInv.mono_root {r : Root} {past : List Root} (hi : HistInv (r :: past)) :
+    ∀ r0 ∈ r :: past, DeletedMono r0 r := by
+  intro r0 hr0 so hso sn hsn hsid x hx
+  rcases List.mem_cons.mp hr0 with rfl | hr0
+  · have : so = sn := eq_of_nodup_map (hi.nodup _ List.mem_cons_self) hso hsn hsid
+    rw [← this]; exact hx
+  · exact (List.pairwise_cons.mp hi.mono).1 r0 hr0 so hso sn hsn hsid x hx
+
+/-- the segment snapshots a merge picked from ANY root of the history are compatible with the current root -/
+theorem Inv.mergeCompat {s : State} (hs : Inv s) (k : Nat) (pick : List Nat) :
+    MergeCompat s.root ((s.seen k).segs.filter (fun ss => pick.contains ss.sid)) := by
+  have hroot : s.root ∈ s.history := List.mem_cons_self
+  have hseen := s.seen_mem k
+  have hsub : ∀ s0 ∈ (s.seen k).segs.filter (fun ss => pick.contains ss.sid), s0 ∈ (s.seen k).segs :=
+    fun s0 h => (List.mem_filter.mp h).1
+  exact {
+    pwf := hs.hist.wf _ hroot
+    pnd := hs.hist.nodup _ hroot
+    knd := List.Nodup.sublist (List.Sublist.map _ List.filter_sublist) (hs.hist.nodup _ hseen)
+    kwf := fun s0 h => hs.hist.wf _ hseen s0 (hsub s0 h)
+    docs := fun s0 h ss hss hsid => hs.hist.cons _ hseen _ hroot s0 (hsub s0 h) ss hss hsid
+    mono := fun s0 h ss hss hsid => hs.hist.mono_root _ hseen s0 (hsub s0 h) ss hss hsid }
+
+/-- the merge event: planned against whatever root of the history, over whatever segments of it -/
+theorem Inv.step_merge {s : State} (hs : Inv s) (k : Nat) (pick : List Nat) (f : Bool) {id : Nat}
+    (hid : id ∉ s.usedSids) : Inv (step s (.merge k pick f id)) := by
+  have hroot : s.root ∈ s.history := List.mem_cons_self
+  have hc := hs.mergeCompat k pick
+  have hf := not_mem_usedSids hid
+  constructor
+  · show HistInv (introduceMerge s.root s.nextEpoch (MergeTask.plan _ id f) :: s.root :: s.past)
+    refine hs.hist.push (f := id)
+      (nd := (toMerge ((s.seen k).segs.filter (fun ss => pick.contains ss.sid)) f).flatMap SegSnap.live)
+      ?_ (introduceMerge_plan_wf hc f _ _) (introduceMerge_plan_sids_nodup hc f _ _ (hf _ hroot))
+    intro ss hss
+    rcases introduceMerge_plan_mem hc f _ _ hss with h | h
+    · exact Or.inl ⟨ss, h, rfl, rfl, fun x hx => hx⟩
+    · exact Or.inr ⟨h.2.1, h.2.2, hf⟩
+  · show (introduceMerge s.root s.nextEpoch (MergeTask.plan _ id f)).abs.Perm (absOf s.applied)
+    exact (introduceMerge_plan_abs hc f _ _).trans hs.abs
+
+theorem applied_foldl (evs : List Event) (s : State) :
+    (evs.foldl step s).applied = s.applied ++ batchesOf evs := by
+  induction evs generalizing s with
+  | nil => show s.applied = s.applied ++ []; rw [List.append_nil]
+  | cons e t ih =>
+    rw [List.foldl_cons, ih]
+    cases e with
+    | batch b k sid => show (s.applied ++ [b]) ++ batchesOf t = s.applied ++ (b :: batchesOf t); rw [List.append_assoc]; rfl
+    | persist p => rfl
+    | merge k pick f id => rfl
+
+/-- every well-formed history keeps the invariant -/
+theorem inv_foldl (evs : List Event) (s : State) (hs : Inv s) (hwf : HistoryWF s evs) : Inv (evs.foldl step s) := by
+  induction evs generalizing s with
+  | nil => exact hs
+  | cons e t ih =>
+    rw [List.foldl_cons]
+    unfold HistoryWF at hwf
+    cases e with
+    | batch b k sid => exact ih _ (hs.step_batch b k hwf.1) hwf.2
+    | persist p => exact ih _ (hs.step_persist hwf.1) hwf.2
+    | merge k pick f id => exact ih _ (hs.step_merge k pick f hwf.1) hwf.2
+
+/-- `Snapshot.Count()` (sum of `segment.Count() - deleted.GetCardinality()`) is the number of live documents -/
+theorem root_count_eq_abs_length (r : Root) (hr : r.WF) : r.count = r.abs.length := by
+  unfold Root.count Root.abs
+  rw [List.length_flatMap]
+  congr 1
+  apply List.map_congr_left
+  intro ss hss
+  exact SegSnap.count_eq_live_length (hr ss hss)
+
+/-- a batch that only updates: every document it adds has its id among the ids it names, and it adds no id twice -/
+def UpdateOnly (b : Batch) : Prop := (∀ d ∈ b.docs, d.id ∈ b.ids) ∧ (b.docs.map (·.id)).Nodup
+instance (b : Batch) : Decidable (UpdateOnly b) := by unfold UpdateOnly; exact inferInstance
+
+theorem applyBatch_unique {A : List Doc} {b : Batch} (hA : (A.map (·.id)).Nodup) (hb : UpdateOnly b) :
+    ((applyBatch A b).map (·.id)).Nodup := by
+  unfold applyBatch
+  rw [List.map_append, List.nodup_append]
+  refine ⟨List.Nodup.sublist (List.Sublist.map _ List.filter_sublist) hA, hb.2, ?_⟩
+  intro x hx y hy hxy
+  obtain ⟨d, hd, rfl⟩ := List.mem_map.mp hx
+  obtain ⟨e, he, rfl⟩ := List.mem_map.mp hy
+  have h1 := (List.mem_filter.mp hd).2
+  have h2 := hb.1 e he
+  rw [← hxy] at h2
+  simp at h1
+  exact h1 h2
+
+theorem absOf_unique (bs : List Batch) (h : ∀ b ∈ bs, UpdateOnly b) : ((absOf bs).map (·.id)).Nodup := by
+  unfold absOf
+  suffices H : ∀ (bs : List Batch) (A : List Doc), (A.map (·.id)).Nodup → (∀ b ∈ bs, UpdateOnly b) →
+      ((bs.foldl applyBatch A).map (·.id)).Nodup from H bs [] (by simp) h
+  intro bs
+  induction bs with
+  | nil => intro A hA _; exact hA
+  | cons b t ih =>
+    intro A hA hb
+    rw [List.foldl_cons]
+    exact ih _ (applyBatch_unique hA (hb b List.mem_cons_self)) (fun x hx => hb x (List.mem_cons_of_mem _ hx))
 
 end Bluge.Index
